@@ -81,6 +81,7 @@ class GEngine(object):
             j.meta["cwd_free"] = True
         allj = list(corpus)
         allj += J.api_jobs()[: cfg["api"]] if cfg["api"] < 1000 else J.api_jobs()
+        allj += pool.nopath_api_jobs()
         allj += pool.swarm_jobs(self.seeds, cfg["swarm"], corpus)
         allj += synth.synth_jobs(self.seeds, cfg["synth"])
         poisons = pool.poison_jobs(self.seeds, cfg["poison"], corpus)
